@@ -1,13 +1,32 @@
 # property -> legs.  Only claimed properties appear here; MANIFEST.json is generated from this table
 # by tools/gen_manifest.py.
 PROPS = {
+ 'C15': {
+   'verus': ['resp_func', 'resp_lemmas'], 'kani': [],
+   'level': 'proof', 'design_ref': '4.15',
+   'technique': 'Verus: the real decoder functions proved equal to a strict RESP grammar written as recursive spec functions; framing properties proved as lemmas over that grammar',
+   'level_text': 'Deductive proof (Verus, unbounded: every byte string, every nesting depth) that parse_line/parse_len/parse_bulk_str/parse_array/parse_resp extracted from src/protocol/stateless.rs return exactly what the strict RESP grammar (CR LF terminators, lengths >= -1) defines: same value with same byte indices, consumed = exactly the packet, NotEnoughData iff the grammar says incomplete, InvalidProtocol iff the grammar says invalid, UnexpectedErr unreachable. Over that grammar two lemmas are proved by mutual induction: a parsed packet is unchanged by any continuation of the stream (prefix stability) and no strict prefix of a packet parses (no early commit) - together: the same packets for every way of splitting the stream, and an incomplete packet consumes nothing. This is the DECODER half of C15. Not proved: that the real encoder (encode_resp: io::Write-generic, usize::to_string) produces the grammar (both Kani probes timed out, DESIGN 4.15), OptionalMultiPacketDecoder, and the BytesMut split_to in parse_indexed_resp (one line, read).',
+   'level_note': 'Trusted: memchr, btoi::<i64> (uninterpreted decimal value), [u8]::get(range), AdvanceIndex::advance on Bulk/Array/Resp indices (repo code behind a GAT Functor) by assumed contracts; usize 64 bit; buffers < 2^62 bytes; Verus/Z3; the extractor (rules logged in evidence).',
+   'explanation': 'decoder == strict grammar (unit resp_func, real text) + framing lemmas over the grammar (unit resp_lemmas). Encoder side not covered.',
+   'not_under_contract': ['encode_resp / resp_to_buf (encoder.rs): out of reach of both tools', 'OptionalMultiPacketDecoder (packet.rs)', 'parse_indexed_resp: BytesMut::split_to(consumed) by reading'],
+ },
+ 'C16': {
+   'verus': ['resp_safe'], 'kani': [],
+   'level': 'proof', 'design_ref': '4.16',
+   'technique': 'Verus: panic/overflow freedom, index bounds, termination and an allocation budget as function contracts on the real parser functions',
+   'level_text': 'Deductive proof (Verus, unbounded) for the PARSER LAYER only (src/protocol/stateless.rs): for every byte string shorter than 2^62 bytes none of parse_resp/parse_array/parse_bulk_str/parse_len/parse_line can overflow, index out of bounds, fail an expect/unwrap or recurse without the input shrinking (decreases buf.len()); consumed <= buf.len(); every returned index lies inside the consumed bytes; Vec::with_capacity is only ever asked for at most the remaining input length (rule R9 turns the capacity into an obligation), so allocation is linear in the bytes received. The executor/session/command layers (async) are NOT under contract: e.g. the EVAL key-count loop (DESIGN section 0 item 6) is outside this check.',
+   'level_note': 'Trusted: the same shims as C15; recursion depth is bounded by nesting depth <= buf.len()/4 (no fixed stack bound is provable for the current code; reported as a limitation).',
+   'explanation': 'safety contracts of the five parser functions (unit resp_safe, real text). Only the parser layer of the property is decided.',
+   'not_under_contract': ['proxy/executor.rs, proxy/session.rs, proxy/command.rs argument handling (async / string code)', 'stack depth of nested arrays'],
+ },
  'C09': {
-   'verus': ['c09'], 'kani': [],
+   'verus': ['c09'], 'kani': ['c09'],
    'level': 'proof', 'design_ref': '4.9',
    'technique': 'Verus function contracts on extracted real functions against spec functions written from the Redis Cluster spec; Kani commuting-square proof for the CRC table step',
-   'level_text': 'x',
-   'level_note': 'x',
-   'explanation': 'x',
+   'level_text': 'Deductive proof (Verus, unbounded: every key byte string) that the real get_hash_tag returns exactly the Redis-Cluster hash tag (first "{", first "}" after it, non-empty content, else the whole key) and generate_slot returns CRC16-XMODEM(tag) mod 16384 < 16384, with CRC16-XMODEM defined bitwise (poly 0x1021, init 0) in the spec; SlotMapData::get returns the address registered for a slot iff the slot table has one. The crc16 crate is tied to the bitwise definition by a Kani proof of the per-byte commuting square for EVERY (register, byte) pair (complete, constant loop bounds). Bounded Kani harnesses (keys <= 4 bytes quick / <= 7 thorough; <= 4 keys for same_slot with generate_slot abstracted to an arbitrary function) run the compiled functions against an independent oracle and provide replayable counterexamples. Not decided: MOVED reply formatting and the multi-key refusal in the async executor.',
+   'level_note': 'Trusted: crc16 calculate() == fold of its per-byte update (three-line loop in the crate; the step itself is proved), slice position/get shims, Verus/Z3, Kani/CBMC, extractor rules R3 R4 R5. SlotMapData::new (HashMap::into_iter) and LocalCluster::send / RemoteCluster::send_remote (generic senders, format!) are not under contract.',
+   'explanation': 'hash tag, slot and slot-table lookup proved against spec functions written from the Redis Cluster specification; CRC crate step proved by Kani for all (u16,u8); bounded end-to-end Kani harnesses supply counterexamples.',
+   'not_under_contract': ['SlotMapData::new (HashMap::into_iter)', 'LocalCluster::send / RemoteCluster::send_remote (MOVED text)', 'same_slot guards in proxy/executor.rs (async)', 'CommandInfo::get_key'],
  },
  'C19': {
    'verus': ['c19'], 'kani': ['c19'],
@@ -34,6 +53,6 @@ NOT_APPLICABLE = {
  'C18': 'get_failures is values_mut + HashMap::retain + filter chains over chrono arithmetic: outside the rule cap; CBMC cannot run a two-entry HashMap in 20 minutes',
  'C10': 'kernel parsable but the balance (counting) proof through three nested loops is not completed; CBMC cannot execute it',
  'C20': 'value-index table proof not completed (division arithmetic over MSET indices); zstd round trip would be assumed',
- 'C01': 'not yet built in this session', 'C04': 'not yet built in this session', 'C06': 'not yet built in this session', 'C09': 'not yet built in this session',
- 'C11': 'not yet built in this session', 'C13': 'not yet built in this session', 'C14': 'not yet built in this session', 'C15': 'not yet built in this session', 'C16': 'not yet built in this session',
+ 'C01': 'not yet built in this session', 'C04': 'not yet built in this session', 'C06': 'not yet built in this session', 
+ 'C11': 'not yet built in this session', 'C13': 'not yet built in this session', 'C14': 'not yet built in this session',
 }
